@@ -321,7 +321,7 @@ func (nl *NodeList) Intersect(nl2 *NodeList) *NodeList {
 		}
 		// Clone the node
 		newnode := node.Copy()
-		newnode.Update(ni2[id])
+		newnode.Update(ni2[id].Copy())
 		ret.Nodes = append(ret.Nodes, newnode)
 
 		_, ok := rootElements[id]
@@ -377,9 +377,9 @@ func (nl *NodeList) Union(nl2 *NodeList) *NodeList {
 	nodeindex := ret.indexNodes()
 	for _, n := range nl2.Nodes {
 		if _, ok := nodeindex[n.Id]; ok {
-			nodeindex[n.Id].Update(n)
+			nodeindex[n.Id].Update(n.Copy())
 		} else {
-			ret.Nodes = append(ret.Nodes, n)
+			ret.Nodes = append(ret.Nodes, n.Copy())
 		}
 	}
 
